@@ -42,8 +42,8 @@ CHECKS = {
                 ref='3/C07'),
     'C08': dict(cat='other', engine='E2',
                 technique='bounded symbolic execution of the real preconditioner objects over a symbolic real scalar; z3 (NRA) decides multiply-back identities against textbook operators and an independent dense ILU(p)',
-                text='For every square pattern with diagonal (n<=3), fill level and omega, the factory-built Jacobi/SOR/SSOR/ILU(p)/polynomial/scale/diagonal preconditioners are executed symbolically; z3 decides the defining operator identity over all real matrix values and inputs, input immutability, filter-last, and freshness after init_numeric.',
-                note='Trusted: SymReal instantiation, DAG printer, z3 5.1.0, dense ILU(p) oracle. Real arithmetic, non-zero pivots. Dense 3x3 ILU queries may be inconclusive in quick tier (reported). Outside: BCSR variants, Schwarz/Uzawa/Vanka, rounding.',
+                text='For every square pattern with diagonal (n<=3), fill level and omega, the factory-built Jacobi/SOR/SSOR/ILU(p)/polynomial/scale/diagonal preconditioners are executed symbolically; z3 decides the defining operator identity over all real matrix values and inputs, input immutability, filter-last, and freshness after init_numeric. Blocked slice: block SOR / SSOR / ILU(0) on SparseMatrixBCSR<2,2> (1..2 block rows, every block pattern) against the block textbook operators.',
+                note='Trusted: SymReal instantiation, DAG printer, z3 5.1.0, dense ILU(p) oracle. Real arithmetic, non-zero pivots. Dense 3x3 ILU queries may be inconclusive in quick tier (reported). Two defects found and fixed in the BCSR variants (SSOR scaling, block ILU multiplication side). Outside: BCSR with other block sizes / ILU(p>0) on blocks, Schwarz/Uzawa/Vanka, rounding.',
                 ref='3/C08'),
     'C09': dict(cat='other', engine='E2',
                 technique='bounded symbolic execution of the real MultiGrid code with symbolic non-commuting 2x2 mock operands; result term == textbook recursion term (DAG identity or z3), event log == reference',
